@@ -161,8 +161,6 @@ RULES = [
      (M, "Handler.v SiteResultLen: a trace of 2^32 states (>= 2^32 * 40 bytes of input; excluded by the u32 bound of every theorem)")),
     (("interpreter-data/src/trace.rs", None, "index"),
      (U, "slider_next_state_index_defined")),
-    (("interpreter-data/src/executed_state/impls.rs", "fmt", "index"),
-     (O, "OPEN DEFECT until proposed_fixes/C01-fold-state-display-index.diff is applied: Display of a Fold state indexes subtraces_desc[0] / [1]; KeeperError::NoStreamState prints a state of the adversary's data with it (replay corpus/C01/15-*.json); error texts are opaque in the model")),
     (("interpreter_data/verification.rs", None, "expect"),
      (O, "public_key.to_peer_id() after public_key.validate() succeeded for every key of the same store at the top of DataVerifier::new (C15 model Sig.v: validate is the gate)")),
     # ---------------- interpreter-cid / signatures / value ----------------
